@@ -26,6 +26,7 @@ import (
 
 	v1 "sigs.k8s.io/karpenter/pkg/apis/v1"
 	"sigs.k8s.io/karpenter/pkg/controllers/disruption"
+	"sigs.k8s.io/karpenter/pkg/controllers/dynamicresources/deviceallocation"
 	"sigs.k8s.io/karpenter/pkg/controllers/provisioning"
 	"sigs.k8s.io/karpenter/pkg/operator/options"
 	"sigs.k8s.io/karpenter/pkg/state/virtualpods"
@@ -64,6 +65,12 @@ type Ext struct {
 	// every DaemonSet has one running pod (on the first node that has a Node object), so that the cluster state caches a
 	// daemon pod for it (Cluster.UpdateDaemonSet / GetDaemonSetPod)
 	DaemonPods bool `json:"daemonPods"`
+	// informer race: this many running pods with REQUIRED pod anti-affinity are bound to a node ("late-node", which exists in
+	// the API) whose Node event the cluster state has not processed yet: Cluster.UpdatePod fails with NotFound for the node
+	// but already tracks the pod as an anti-affinity pod without a binding
+	UntrackedAntiPods int `json:"untrackedAntiPods,omitempty"`
+	// dynamic resource allocation is on (IgnoreDRARequests=false): see dra.go
+	DRA *Dra `json:"dra,omitempty"`
 }
 
 type Env struct {
@@ -75,7 +82,9 @@ type Env struct {
 	Queue  *disruption.Queue
 	Writes *atomic.Int64
 	Ext    *Ext
-	ids    map[*corev1.Pod]int
+	// the deviceallocation controller the Provisioner reads the allocated in-cluster devices from (nil without DRA)
+	Dev *deviceallocation.Controller
+	ids map[*corev1.Pod]int
 }
 
 const csiDriver = "csi.c18.io"
@@ -205,8 +214,18 @@ func BuildEnv(s *world.Scenario, ext *Ext) (*Env, error) {
 			w.Cluster.UpdateNodeClaim(nc)
 		}
 	}
+	if ext.UntrackedAntiPods > 0 {
+		if err := e.addUntrackedAntiPods(s, ext.UntrackedAntiPods); err != nil {
+			return nil, err
+		}
+	}
+	if ext.DRA != nil {
+		if err := e.applyDRA(ext.DRA); err != nil {
+			return nil, err
+		}
+	}
 	e.Client = countingClient(w.Client, e.Writes)
-	e.Prov = provisioning.NewProvisioner(e.Client, e.Rec, w.CP, w.Cluster, w.Clock, nil, virtualpods.NewVirtualPodCache(e.Client))
+	e.Prov = provisioning.NewProvisioner(e.Client, e.Rec, w.CP, w.Cluster, w.Clock, e.Dev, virtualpods.NewVirtualPodCache(e.Client))
 	e.Queue = disruption.NewQueue(e.Client, e.Rec, w.Cluster, w.Clock, e.Prov)
 	w.Cluster.SetSynced(true)
 	// memoised derived data of the instance types is computed once up front (it is a cache, not a change of the catalog)
@@ -214,6 +233,38 @@ func BuildEnv(s *world.Scenario, ext *Ext) (*Env, error) {
 		it.Allocatable()
 	}
 	return e, nil
+}
+
+// addUntrackedAntiPods: pods whose own event reaches the cluster state before the event of the node they run on.
+func (e *Env) addUntrackedAntiPods(s *world.Scenario, k int) error {
+	w := e.W
+	if len(s.ITs) == 0 {
+		return nil
+	}
+	it := w.ITs[s.ITs[0].Name]
+	node := test.Node(test.NodeOptions{
+		ObjectMeta: metav1.ObjectMeta{Name: "late-node", UID: "node-late", CreationTimestamp: metav1.NewTime(world.T0.Add(-5 * time.Minute)),
+			Labels: map[string]string{corev1.LabelHostname: "late-node", corev1.LabelTopologyZone: world.Zones[0], corev1.LabelInstanceTypeStable: it.Name,
+				corev1.LabelArchStable: "amd64", corev1.LabelOSStable: "linux"}},
+		ProviderID:  "fake://late-node",
+		Allocatable: it.Allocatable(), Capacity: it.Capacity,
+	})
+	node.Namespace = ""
+	if err := w.Client.Create(e.Ctx, node); err != nil {
+		return err
+	}
+	for i := 0; i < k; i++ {
+		app := []string{"a", "b", "c"}[i%3]
+		key := []string{corev1.LabelHostname, corev1.LabelTopologyZone}[i%2]
+		pod := w.BuildPod(world.Pod{Name: fmt.Sprintf("late-anti-%d", i), Labels: map[string]string{"app": app}, CPU: 100, Mem: 64,
+			Affinity: []world.PodAffinity{{TopologyKey: key, MatchLabels: map[string]string{"app": app}, Anti: true, Required: true}}}, "late-node", 900+i)
+		pod.Status.Phase = corev1.PodRunning
+		if err := w.Client.Create(e.Ctx, pod); err != nil {
+			return err
+		}
+		_ = w.Cluster.UpdatePod(e.Ctx, pod) // NotFound for the node: the informer would retry later
+	}
+	return nil
 }
 
 // addDaemonPods gives every DaemonSet a running pod it controls and lets the cluster state see it.
